@@ -816,13 +816,14 @@ func ruleC15TunnelRelease(w *World, r *Report, P string) {
 		})
 		for _, c := range sites {
 			n++
+			// "this call allocated the id" is the lookup's absence, tested directly or carried in a local
+			// that can hold the tested value only when the absence branch was taken (boolImplies).
+			absent := func(v ssa.Value, truth bool) bool {
+				return !truth && strings.Contains(symOf(v).String(), "UP4.tunnelPeerIDs[]#ok")
+			}
 			okGuard := onlyVia(g, c, func(a, b *ssa.BasicBlock) bool {
 				v, truth, ok := boolEdge(a, b)
-				if !ok || truth {
-					return false
-				}
-				s := symOf(v).String()
-				return strings.Contains(s, "UP4.tunnelPeerIDs[]#ok")
+				return ok && boolImplies(v, truth, absent)
 			})
 			r.check(okGuard, "R15.3", w.FuncName(g), "error path releases the tunnel-peer id only if this call allocated it (!exists)", w.Pos(c.Pos()), "dominated by the lookup's absence", "a failed write releases the id of a tunnel peer that already existed: a live session's id goes back to the free queue")
 		}
